@@ -97,7 +97,7 @@ MAIN = {
                    'flat_area / flat_time',
                    'amplitude'],
     'possible': ['duration >= rise_time + fall_time and abs(amplitude2) <= max_grad'],
-    'flat_time': ['duration - rise_time - fall_time', 'max(duration - rise_time - fall_time, 0)'],
+    'flat_time': ['duration - rise_time - fall_time', 'duration - rise_time - fall_time', '0.0'],
 }
 MAIN_TESTS = [
     'system is None',
@@ -125,13 +125,13 @@ MAIN_TESTS = [
     'rise_time is None',
     'rise_time == 0',
     'duration is not None and flat_time is None',
-    'duration < rise_time + fall_time - eps',
     'flat_time is not None and duration is None',
     'rise_time is None and fall_time is None',
-    'rise_time <= 0 or fall_time <= 0 or flat_time < 0',
     'abs(amplitude2) > max_grad + eps',
     'abs(amplitude2) / rise_time > max_slew * (1 + eps)',
     'abs(amplitude2) / fall_time > max_slew * (1 + eps)',
+    '-eps < flat_time < 0',
+    'rise_time <= 0 or fall_time <= 0 or flat_time < 0',
     'trace_enabled()',
 ]
 FIELDS = {
